@@ -33,7 +33,7 @@
 // Timing discipline: every wait is bounded (boundBase + 50 x the sum of all drawn sleeps);
 // a missed bound is a *suspicion* only: the same case is re-run alone twice with the doubled
 // bound, it is reported only if both re-runs miss as well, otherwise st.Inconclusive().
-// Bounds are >= 100x the slowest case latency observed with the machine saturated.
+// Bounds are > 40x the slowest whole-case latency observed with the machine saturated.
 //
 // Sensitivity (scratch worktree, quick tier, each exits 1):
 //
@@ -277,10 +277,11 @@ func (c Case) sleepSum() int {
 	return s
 }
 
-// boundBase: a whole case normally takes 0.1..20 ms; the slowest single case observed with
-// 16 CPU burners + three concurrent ./check C19 (incl. -race) on 16 cores stayed below
-// 100 ms, so every individual wait gets 10 s + 50 x (sum of drawn sleeps).
-const boundBase = 10 * time.Second
+// boundBase: a whole case (all phases together) normally takes 0.1..20 ms; the slowest whole
+// case observed with 16 CPU burners + three concurrent ./check C19 (incl. -race) on 16 cores
+// took 120 ms. Every *individual* wait gets 5 s + 50 x (sum of all drawn sleeps), i.e. > 40x
+// that; the two confirmation re-runs get twice as much.
+const boundBase = 5 * time.Second
 
 func (c Case) bound(factor int) time.Duration {
 	return time.Duration(factor) * (boundBase + 50*time.Duration(c.sleepSum())*time.Microsecond)
@@ -791,9 +792,9 @@ func TestC19(t *testing.T) {
 	if stat.ReplayPath() == "" {
 		selfTest(t)
 	}
-	q, th := 500, 40000
+	q, th := 1500, 40000
 	if raceEnabled {
-		q, th = 200, 6000
+		q, th = 500, 6000
 	}
 	stat.Check(t, st, "pool", stat.N(q, th), draw, run)
 	key := "slowest_passing_case_ms(norace)"
@@ -801,5 +802,5 @@ func TestC19(t *testing.T) {
 		key = "slowest_passing_case_ms(race)"
 	}
 	st.Extra(key, float64(slowest.Load())/1e6)
-	st.Extra("wait_bound", "10s + 50 x sum of drawn sleeps; doubled for the two confirmation re-runs")
+	st.Extra("wait_bound", "each wait: 5s + 50 x sum of drawn sleeps; doubled for the two confirmation re-runs")
 }
